@@ -4,6 +4,7 @@
 cd /verif
 for d in seeded/${1:-*}/; do
   n=$(basename "$d"); p=${n%%-*}
+  [ -f "$d/patch.diff" ] || { echo "$n: obsolete (no patch.diff; see meta.json)"; continue; }
   git -C /repo apply --check "$PWD/$d/patch.diff" 2>/dev/null || { echo "$n: PATCH DOES NOT APPLY"; continue; }
   git -C /repo apply "$PWD/$d/patch.diff"
   ./check "$p" --tier quick > /tmp/regress_$n.out 2>&1; rc=$?
